@@ -47,8 +47,12 @@ Section REQ.
         else if auth n then let '(b, c) := schemes_ok r in (b, n :: c)
         else (false, [n])
     end.
+  (* the empty requirement asks for nothing; otherwise no callback means failure *)
   Definition requirement_ok (o : ropts) (r : requirement) : bool * list string :=
-    if negb (o_has_auth o) then (false, []) else schemes_ok r.
+    match r with
+    | [] => (true, [])
+    | _ => if negb (o_has_auth o) then (false, []) else schemes_ok r
+    end.
 
   (* ValidateSecurityRequirements: first satisfied requirement wins *)
   Fixpoint requirements_scan (o : ropts) (rs : list requirement) : bool * list string :=
@@ -71,7 +75,9 @@ Section REQ.
   Definition checked_parts (o : ropts) (op : operation) : list (part * bool) :=
     let sec := match op_security op with Some l => l | None => doc_security op end in
     [(PSec, fst (security_ok o sec))]
-    ++ map (fun p => (part_of p, p_ok p)) (filter (fun p => negb (overridden (op_params op) p)) (path_params op))
+    ++ map (fun p => (part_of p, p_ok p))
+           (filter (fun p => negb (overridden (op_params op) p))
+                   (filter (fun p => negb (o_excl_query o && loc_eqb (p_in p) LQuery)) (path_params op)))
     ++ map (fun p => (part_of p, p_ok p))
            (filter (fun p => negb (o_excl_query o && loc_eqb (p_in p) LQuery)) (op_params op))
     ++ (if op_has_body op && negb (o_excl_body o) then [(PBody, op_body_ok op)] else []).
